@@ -46,6 +46,10 @@ func (i *IPCP) SetAddress(addr net.IP) {
 
 func (i *IPCP) SetPeerAddress(addr net.IP) {
 	i.peer.PeerAddress = addr.To4()
+	// An address negotiated under a previous assignment is stale: forget
+	// it so that it can never be reported as the peer's address again
+	// (startNCP runs again on the same IPCP after a re-authentication).
+	i.peer.Address = nil
 }
 
 func (i *IPCP) SetDNS(primary, secondary net.IP) {
